@@ -289,4 +289,246 @@ theorem coerceFields_le (E : Env) : ∀ (fs : List (Name × Value)) (fds : List 
       omega
 end
 
+/-! ### Per-document sums of per-node work
+
+  `validateArguments`, `validateDirectives` and `validateValues` are each one `ast.Inspect` pass over the
+  document (the callback calls of such a pass are `docCalls`, Walks.lean) doing, at some nodes, work that
+  is not constant: the loops modelled below. `sweep` adds a per-node cost over all nodes of a document in
+  `ast.Inspect` order: `cArgs` at every field and directive (position, arguments), `cDirs` at every node
+  that carries directives, `cVal` at every outermost value (argument values, default values). -/
+
+structure NodeCost where
+  cArgs : Pos → List Argument → Nat
+  cDirs : List Directive → Nat
+  cVal : Value → Nat
+  cVar : VarDef → Nat := fun _ => 0
+
+def sweepArgs (c : NodeCost) : List Argument → Nat
+  | [] => 0
+  | a :: as => c.cVal a.value + sweepArgs c as
+
+def sweepDirs (c : NodeCost) : List Directive → Nat
+  | [] => 0
+  | d :: ds => (c.cArgs d.atPos d.args + sweepArgs c d.args) + sweepDirs c ds
+
+mutual
+def sweepSel (c : NodeCost) : Selection → Nat
+  | .field al n args dirs sel =>
+    c.cArgs (Selection.field al n args dirs sel).position args + c.cDirs dirs + sweepArgs c args + sweepDirs c dirs +
+      (match sel with
+       | some s => sweepSet c s
+       | none => 0)
+  | .spread _ _ dirs => c.cDirs dirs + sweepDirs c dirs
+  | .inline _ _ dirs s => c.cDirs dirs + sweepDirs c dirs + sweepSet c s
+def sweepSet (c : NodeCost) : SelSet → Nat
+  | .mk sels _ _ => sweepSels c sels
+def sweepSels (c : NodeCost) : List Selection → Nat
+  | [] => 0
+  | s :: ss => sweepSel c s + sweepSels c ss
+end
+
+def sweepVarDefs (c : NodeCost) : List VarDef → Nat
+  | [] => 0
+  | v :: vs => (c.cVar v + (match v.default with
+                            | some d => c.cVal d
+                            | none => 0)) + sweepVarDefs c vs
+
+def sweepDefs (c : NodeCost) : List Definition → Nat
+  | [] => 0
+  | .op _ _ vars dirs s :: ds => (c.cDirs dirs + sweepDirs c dirs + sweepVarDefs c vars + sweepSet c s) + sweepDefs c ds
+  | .frag _ _ _ dirs s :: ds => (c.cDirs dirs + sweepDirs c dirs + sweepSet c s) + sweepDefs c ds
+
+def sweep (c : NodeCost) (d : Document) : Nat := sweepDefs c d.defs
+
+/-- Pointwise domination with a factor carries over to the sums. -/
+structure Dominated (K : Nat) (c w : NodeCost) : Prop where
+  args : ∀ p as, c.cArgs p as ≤ K * w.cArgs p as
+  dirs : ∀ ds, c.cDirs ds ≤ K * w.cDirs ds
+  val : ∀ v, c.cVal v ≤ K * w.cVal v
+  var : ∀ v, c.cVar v ≤ K * w.cVar v
+
+theorem sweepArgs_le {K : Nat} {c w : NodeCost} (h : Dominated K c w) :
+    ∀ as, sweepArgs c as ≤ K * sweepArgs w as
+  | [] => by simp [sweepArgs]
+  | a :: as => by
+    have := h.val a.value
+    have := sweepArgs_le h as
+    simp only [sweepArgs, Nat.mul_add]; omega
+
+theorem sweepDirs_le {K : Nat} {c w : NodeCost} (h : Dominated K c w) :
+    ∀ ds, sweepDirs c ds ≤ K * sweepDirs w ds
+  | [] => by simp [sweepDirs]
+  | d :: ds => by
+    have := h.args d.atPos d.args
+    have := sweepArgs_le h d.args
+    have := sweepDirs_le h ds
+    simp only [sweepDirs, Nat.mul_add]; omega
+
+mutual
+theorem sweepSel_le {K : Nat} {c w : NodeCost} (h : Dominated K c w) :
+    ∀ s, sweepSel c s ≤ K * sweepSel w s
+  | .field al n args dirs (some s) => by
+    have := h.args (Selection.field al n args dirs (some s)).position args
+    have := h.dirs dirs
+    have := sweepArgs_le h args
+    have := sweepDirs_le h dirs
+    have := sweepSet_le h s
+    simp only [sweepSel, Nat.mul_add]; omega
+  | .field al n args dirs none => by
+    have := h.args (Selection.field al n args dirs none).position args
+    have := h.dirs dirs
+    have := sweepArgs_le h args
+    have := sweepDirs_le h dirs
+    simp only [sweepSel, Nat.mul_add]; omega
+  | .spread _ _ dirs => by
+    have := h.dirs dirs
+    have := sweepDirs_le h dirs
+    simp only [sweepSel, Nat.mul_add]; omega
+  | .inline _ _ dirs s => by
+    have := h.dirs dirs
+    have := sweepDirs_le h dirs
+    have := sweepSet_le h s
+    simp only [sweepSel, Nat.mul_add]; omega
+theorem sweepSet_le {K : Nat} {c w : NodeCost} (h : Dominated K c w) :
+    ∀ s, sweepSet c s ≤ K * sweepSet w s
+  | .mk sels _ _ => by simp only [sweepSet]; exact sweepSels_le h sels
+theorem sweepSels_le {K : Nat} {c w : NodeCost} (h : Dominated K c w) :
+    ∀ ss, sweepSels c ss ≤ K * sweepSels w ss
+  | [] => by simp [sweepSels]
+  | s :: ss => by
+    have := sweepSel_le h s
+    have := sweepSels_le h ss
+    simp only [sweepSels, Nat.mul_add]; omega
+end
+
+theorem sweepVarDefs_le {K : Nat} {c w : NodeCost} (h : Dominated K c w) :
+    ∀ vs, sweepVarDefs c vs ≤ K * sweepVarDefs w vs
+  | [] => by simp [sweepVarDefs]
+  | v :: vs => by
+    have ih := sweepVarDefs_le h vs
+    have hv := h.var v
+    simp only [sweepVarDefs, Nat.mul_add]
+    cases hd : v.default with
+    | none => simp only []; omega
+    | some d => have := h.val d; simp only []; omega
+
+theorem sweepDefs_le {K : Nat} {c w : NodeCost} (h : Dominated K c w) :
+    ∀ ds, sweepDefs c ds ≤ K * sweepDefs w ds
+  | [] => by simp [sweepDefs]
+  | .op _ _ vars dirs s :: ds => by
+    have := h.dirs dirs
+    have := sweepDirs_le h dirs
+    have := sweepVarDefs_le h vars
+    have := sweepSet_le h s
+    have := sweepDefs_le h ds
+    simp only [sweepDefs, Nat.mul_add]; omega
+  | .frag _ _ _ dirs s :: ds => by
+    have := h.dirs dirs
+    have := sweepDirs_le h dirs
+    have := sweepSet_le h s
+    have := sweepDefs_le h ds
+    simp only [sweepDefs, Nat.mul_add]; omega
+
+/-- Nodes of a type expression of the document (`[[Int!]]!` has 5). -/
+def typeNodes : TypeExpr → Nat
+  | .named _ => 1
+  | .list t _ _ => 1 + typeNodes t
+  | .nonNull t => 1 + typeNodes t
+
+/-- The size of a document for these rules: one per field / directive and per argument of it, one per
+    directive of every node, the nodes of every outermost value. -/
+def sizeCost : NodeCost :=
+  { cArgs := fun _ as => 1 + as.length, cDirs := fun ds => ds.length, cVal := vsize,
+    cVar := fun v => 1 + typeNodes v.type }
+
+def ruleSize (d : Document) : Nat := sweep sizeCost d
+
+/-! ### (b) The argument rule and the directive rule, per node -/
+
+/-- validate_arguments.go 33-58 at one field or directive: `for _, argument := range arguments` then
+    `for name, def := range argumentDefinitions`; `argDefs p` = `len(argumentDefinitions)` at that node
+    (TypeInfo / schema: an oracle). -/
+def argumentCost (argDefs : Pos → Nat) : NodeCost :=
+  { cArgs := fun p as => as.length + argDefs p, cDirs := fun _ => 0, cVal := fun _ => 0 }
+
+/-- validate_directives.go 38-66 at one node: `for _, directive := range directives`, and per directive
+    `for _, allowed := range def.Locations` (`locs name` = `len(def.Locations)`, 0 when undefined). -/
+def directiveCost (locs : String → Nat) : NodeCost :=
+  { cArgs := fun _ _ => 0, cDirs := fun ds => (ds.map fun d => 1 + locs d.name.name).sum, cVal := fun _ => 0 }
+
+/-- validate_values.go 10-25: at every outermost value `validateCoercion(node, expected, true)` when
+    TypeInfo has an expected type (an oracle `expected`), one step otherwise. -/
+def valueCost (E : Env) (expected : Value → Option Ty) : NodeCost :=
+  { cArgs := fun _ _ => 0, cDirs := fun _ => 0,
+    cVal := fun v => match expected v with
+                     | some t => (coerce E v t true).1
+                     | none => 1 }
+
+/-! ### (d) TypeInfo maintenance (type_info.go 65-196)
+
+  One `ast.Inspect` pass; the work that is not constant per callback call: at a list literal the loop over
+  its items (80-90), at an object literal the `for { list, ok := … }` unwrapping of the expected type —
+  `unwrap v` iterations, the wrapper depth of that value's expected type, an oracle — and the loop over
+  its fields (91-119), at a field / directive the loop over its arguments (120-158), at a variable
+  definition `schemaType` recursing over the type expression (44-61, 183-190). `tiVal` descends into every
+  value (TypeInfo types nested values too). -/
+
+mutual
+def tiVal (unwrap : Value → Nat) : Value → Nat
+  | .list vs o c => 1 + tiVals unwrap vs
+  | .obj fs o c => 1 + unwrap (.obj fs o c) + tiFields unwrap fs
+  | _ => 1
+def tiVals (unwrap : Value → Nat) : List Value → Nat
+  | [] => 0
+  | v :: vs => (1 + tiVal unwrap v) + tiVals unwrap vs
+def tiFields (unwrap : Value → Nat) : List (Name × Value) → Nat
+  | [] => 0
+  | (_, v) :: fs => (1 + tiVal unwrap v) + tiFields unwrap fs
+end
+
+def typeInfoCost (unwrap : Value → Nat) : NodeCost :=
+  { cArgs := fun _ as => 1 + as.length, cDirs := fun _ => 0, cVal := tiVal unwrap,
+    cVar := fun v => 1 + typeNodes v.type }
+
+mutual
+theorem tiVal_le (unwrap : Value → Nat) (T : Nat) (h : ∀ v, unwrap v ≤ T) :
+    ∀ v, tiVal unwrap v + 1 ≤ (T + 2) * vsize v
+  | .list vs o c => by
+    have := tiVals_le unwrap T h vs
+    simp only [tiVal, vsize, Nat.mul_add]; omega
+  | .obj fs o c => by
+    have := tiFields_le unwrap T h fs
+    have := h (.obj fs o c)
+    simp only [tiVal, vsize, Nat.mul_add]; omega
+  | .var _ => by simp only [tiVal, vsize]; omega
+  | .null _ => by simp only [tiVal, vsize]; omega
+  | .int _ _ => by simp only [tiVal, vsize]; omega
+  | .float _ _ => by simp only [tiVal, vsize]; omega
+  | .str _ _ => by simp only [tiVal, vsize]; omega
+  | .bool _ _ => by simp only [tiVal, vsize]; omega
+  | .enum _ _ => by simp only [tiVal, vsize]; omega
+theorem tiVals_le (unwrap : Value → Nat) (T : Nat) (h : ∀ v, unwrap v ≤ T) :
+    ∀ vs, tiVals unwrap vs ≤ (T + 2) * vsizes vs
+  | [] => by simp [tiVals, vsizes]
+  | v :: vs => by
+    have := tiVal_le unwrap T h v
+    have := tiVals_le unwrap T h vs
+    simp only [tiVals, vsizes, Nat.mul_add]; omega
+theorem tiFields_le (unwrap : Value → Nat) (T : Nat) (h : ∀ v, unwrap v ≤ T) :
+    ∀ fs, tiFields unwrap fs ≤ (T + 2) * fsizes fs
+  | [] => by simp [tiFields, fsizes]
+  | (n, v) :: fs => by
+    have := tiVal_le unwrap T h v
+    have := tiFields_le unwrap T h fs
+    simp only [tiFields, fsizes, Nat.mul_add]; omega
+end
+
+theorem sum_dirs_le (locs : String → Nat) (L : Nat) (h : ∀ n, locs n ≤ L) :
+    ∀ ds : List Directive, (ds.map fun d => 1 + locs d.name.name).sum ≤ (L + 1) * ds.length
+  | [] => by simp
+  | d :: ds => by
+    have := h d.name.name
+    have := sum_dirs_le locs L h ds
+    simp only [List.map_cons, List.sum_cons, List.length_cons, Nat.mul_add]; omega
+
 end ApiFu.C12
